@@ -159,6 +159,25 @@ theorem C14_compositional_run (n : Nat) (hn : 1 ≤ n) (a ws b : Bytes) (hc : Co
     run n (a ++ ws ++ b) = some (concatLex a ws b) := by
   rw [C14_run_eq_spec n hn, C14_compositional a ws b hc hne hws]
 
+/-- Any number of pieces (the content streams of a page, C05): when every piece but the last ends in a
+    complete token, the token values of the pieces joined by a white-space separator are the token values
+    of the pieces, one after the other. -/
+theorem C14_compositional_list (ws : Bytes) (hne : ws ≠ []) (hws : ∀ c ∈ ws, isSPC c = true) :
+    ∀ parts : List Bytes, (∀ p ∈ parts.dropLast, Complete (modeAfter p) = true) →
+      tokValues (specLex (joinWith ws parts)) = (parts.map (fun p => tokValues (specLex p))).flatten
+  | [], _ => by
+    have h : specLex [] = [] := by decide +kernel
+    simp [joinWith, h, tokValues]
+  | [a], _ => by simp [joinWith]
+  | a :: b :: r, h => by
+    have ih := C14_compositional_list ws hne hws (b :: r) (fun p hp => h p (by simp [List.dropLast] at hp ⊢; exact Or.inr hp))
+    have ha := h a (by simp [List.dropLast])
+    simp only [joinWith]
+    rw [C14_compositional a ws _ ha hne hws]
+    simp only [concatLex, tokValues, shiftToks, List.map_append, List.map_map, List.map_cons, List.flatten_cons] at ih ⊢
+    rw [← ih]
+    simp [Function.comp_def]
+
 /-- The hypothesis cannot be dropped: inside a literal string the separator and what follows belong to
     the string. -/
 theorem C14_compositional_open_cex :
@@ -171,6 +190,8 @@ example : Complete (modeAfter [47, 65, 35, 52]) = true ∧ (∀ c ∈ ([0, 13] :
       = [(0, .lit [65, 4]), (6, .str [120]), (9, .int 12)] := by decide +kernel
 example : Complete (modeAfter [49, 50]) = true ∧ concatLex [49, 50] [10] [48, 32, 82]
     = [(0, .int 12), (3, .int 0), (5, .kwd [82])] := by decide +kernel
+example : tokValues (specLex (joinWith [10] [[49, 50], [47, 65, 35, 52], [40, 120, 41]]))
+    = [.int 12, .lit [65, 4], .str [120]] := by decide +kernel
 example : modeAfter [60, 52, 49, 62] = .wclose ∧ modeAfter [40, 97, 41] = .main := by decide +kernel
 
 /-- Non-vacuity: a literal string with a backslash-CR-LF continuation split by the buffer boundary,
